@@ -1239,7 +1239,11 @@ where
                 // exclude the timeout argument
                 for i in 1..(arg_len - 1) {
                     let key = match cmd_ctx.get_cmd().get_command_element(i) {
-                        None => break, // invalid state
+                        // Not a bulk string. Refuse it instead of producing no command at all,
+                        // which would make the retry loop spin without ever replying.
+                        None => {
+                            return Err(Resp::Error(b"ERR invalid key argument".to_vec()));
+                        }
                         Some(key) => key.to_vec(),
                     };
                     let non_blocking_cmd =
